@@ -42,7 +42,7 @@ def scenarios(rng, thorough):
                 sc.append("T %d" % rng.randrange(-16, 0))
             elif r < 0.4 and s > 0:
                 sc.append("T %d" % rng.randrange(0, s))
-            sc.append("F")
+            sc.append("F" + rng.choice(["", "", "1", "2", "3"]))      # signal state of the freeing thread: default, SIGSEGV blocked / ignored / handled
             out.append(sc)
     big = ["B %x" % v for v in (2**64 - 1, 2**64 - 4 * PAGE, 2**64 - 4 * PAGE - 1, 2**64 - 4 * PAGE + 1, 2**63, 2**64 - 5 * PAGE, 2**48)]
     arr = ["A %x %x" % (c, s) for c, s in ((2**32, 2**32), (2**32 + 1, 2**32), (2**63, 2), (2**63 + 1, 2), (3, (2**64 - 1) // 3 + 1), (3, (2**64 - 1) // 3),
